@@ -1,4 +1,5 @@
 import EpModel.Model.Checksum
+import EpModel.Model.ChecksumFast
 import EpModel.Spec.Rfc1071
 /-
   Checksums of the protocols, from the wire bytes: what the RFCs prescribe, written with
